@@ -1,9 +1,10 @@
 """Shared by C03 / C08 / C12 / C16: the round-trip family (Spec.v + RoundTripRules.v)."""
 from . import common as C
 
-PARTIAL = ("PARTIAL: the round-trip theorem reaches, from the entry point, FETCH responses with ENVELOPE / UID / RFC822.SIZE / RFC822 / RFC822.TEXT / "
-           "RFC822.HEADER / MODSEQ / X-GM-MSGID items (with addresses, nstring / astring / string / number tokens in every spelling); the other "
-           "response kinds are decided by the implementation-side oracle and the model/implementation correspondence only")
+PARTIAL = ("PARTIAL: the round-trip theorems reach, from the entry point, FETCH responses with ENVELOPE / FLAGS / INTERNALDATE / UID / RFC822.SIZE / "
+           "RFC822 / RFC822.TEXT / RFC822.HEADER / MODSEQ / X-GM-MSGID items, n EXISTS / RECENT / EXPUNGE, VANISHED, QUOTA, status responses with the "
+           "list-free codes, and tagged completions; the other response kinds are decided by the implementation-side oracle and the "
+           "model/implementation correspondence only")
 
 
 def generic_run(prop, propfile, tier, seed, t0, search, rule, what, corr_streams, assumptions, extra_evidence=None):
